@@ -57,6 +57,10 @@ theorem after_cap {α} (v : Vec) (r : SpecOut α) (h : r.final.length ≤ v.cap)
 theorem after_abs {α} (v : Vec) (r : SpecOut α) : (v.after r).abs = r.final := by
   simp [Vec.abs, Vec.after, take_I_H]
 
+theorem after_facts {α} (v : Vec) (r : SpecOut α) (h : r.final.length ≤ v.cap) :
+    (v.after r).abs = r.final ∧ (v.after r).len = r.final.length ∧ (v.after r).cap = v.cap :=
+  ⟨after_abs v r, rfl, after_cap v r h⟩
+
 /-- **conservation ⇒ well-formedness**: if the list-level result `r` only permutes the ids of `v`
     (plus the fresh ids `ins` that were inserted) between contents, drop log and hand-outs, then the
     vector afterwards is well-formed (in particular nothing is dropped twice and nothing that is still
